@@ -37,7 +37,7 @@
 (*           SSH-1.5 ident with SMSG_PUBLIC_KEY); "none" (refuses both)      *)
 (*   try     protocols enabled on the command line: "12" (default: SSH-2,    *)
 (*           falling back to SSH-1 on a version mismatch), "2", "1"          *)
-(*   cliTimeout   -t given (a client audit then gives up waiting)            *)
+(*   cliTimeout   -t given (informational: the wait is bounded either way)    *)
 (*   granular     -g: sequence of (min, pref, max) requests; non-empty = the  *)
 (*           granular group-exchange test replaces probing, rate check and   *)
 (*           report: one probe connection per request and advertised          *)
@@ -222,11 +222,10 @@ CListen ==
     /\ pc = "h_connect" /\ srv.role = "client" /\ hs.listening < 2
     /\ hs' = [hs EXCEPT !.listening = @ + 1]
     /\ UNCHANGED <<pc, nConn, exit>> /\ UNCHANGED CU
-\* a client connects - or, if a timeout was given with -t, nobody does and the tool gives up (without -t it waits for ever:
-\* the environment is then assumed to send a client eventually)
+\* a client connects - or nobody does and the tool gives up when the timeout has elapsed (-t, default 5 s: the parser's
+\* default makes the timeout count as "given" always - SshCli.tla - so there is no run that waits for ever)
 CAccept(ok) ==
     /\ pc = "h_connect" /\ srv.role = "client" /\ hs.listening = 2
-    /\ (ok \/ srv.cliTimeout)
     /\ IF ok THEN /\ sock' = Open("handshake") /\ pc' = "h_banner" /\ exit' = exit /\ Bump("handshake")
              ELSE /\ sock' = sock /\ pc' = "exit" /\ exit' = 1 /\ nConn' = nConn
     /\ UNCHANGED <<srv, hs, hkTried, hkParsed, hkGot, hkCur, gexIdx, gexStage, gexStep, smallest, reconnFailed, curReq, asked, reported,
